@@ -483,7 +483,13 @@ def run_case(ctx, recipe, tags=()):
                 ctx.count("poke=" + what)
             # the last read decides the layout: end on the sample axis (CSC) for a good share
             if prng.random() < 0.5 and t.shape[0] > 0 and t.shape[1] > 0:
-                t.data(t.ids()[prng.randrange(t.shape[1])], axis="sample")
+                try:
+                    t.data(t.ids()[prng.randrange(t.shape[1])], axis="sample")
+                except Exception as e:      # an operand that refuses to read one of its own IDs
+                    ctx.case({"recipe": recipe, "stage": "poke"}, nontrivial=False)
+                    ctx.fail({"recipe": recipe, "stage": "poke"}, "history:operand-unreadable-" + core.err_name(e),
+                             tuple(tags) + ("history",))
+                    return None, None, None
     rrng = random.Random(recipe["read"]) if recipe.get("read") is not None else None
     shared = {}
     r, outcome, before = merge_once(ctx, recipe, tables, tags, rrng, "first", shared)
@@ -953,7 +959,7 @@ def run(ctx):
              ("wide", "over-512", "axis=" + axis))
     ctx.count("wide>512=" + axis)
     # random, including k-tuples
-    n = 1400 if ctx.quick() else max(4000, 56000 // nw)
+    n = 1150 if ctx.quick() else max(4000, 40000 // nw)
     for _ in range(n):
         k = rng.choice([1, 1, 2, 2, 3])
         form = "single" if (k == 1 and rng.random() < 0.5) else rng.choice(["list", "tuple"])
